@@ -1,25 +1,55 @@
 #!/usr/bin/env python3
-"""Regenerate the parts of the Lean model that are *derived from the jj source text* (lean/JjModel/Generated/).
+"""Translate constants from the jj source into Lean (run by `check` on every run).
 
-Table-driven: every entry of GENERATORS reads one source file of /repo, extracts what it needs with
-regular expressions and returns the text of one generated Lean file.  Properties:
-  * idempotent, writes a file only when its content changes (keeps lake's incremental build quiet);
-  * exits non-zero (and says which) when a source pattern a generator is tied to has vanished —
-    ./check turns that into a broken obligation of the properties importing the generated file.
+Table-driven: each entry is (source file under /repo, regex with one group capturing a Rust
+constant integer expression, Lean name, Lean type, output module).  The captured expression is
+evaluated (integer literals, `<<`, `>>`, `*`, `+`, `-`, parentheses only) and written as
+`def <name> : <type> := <value>` into `lean/JjModel/Generated/<module>.lean`, namespace
+`JjModel.Generated`.  Idempotent (files are rewritten only when their content changes).
+Exit status is non-zero when a source file or pattern has disappeared or an expression is not
+a constant of the supported form — the model would otherwise silently keep a stale value.
+
+A third table, CUSTOM, holds structural extractors (functions): e.g. whether
+`TableStore::get_head_locked` guards its head removals by a name comparison
+(`Generated/TableGuard.lean`, `def tableGuardEq : Bool`), and checks that the add-before-remove
+order and equal-name guards assumed by the head-set protocol models are still in the source.
 """
-import os, re, sys
+import ast, os, re, sys
 
 REPO = os.environ.get("JJ_REPO", "/repo")
 ROOT = os.path.join(os.path.dirname(os.path.abspath(__file__)), "..", "lean", "JjModel", "Generated")
 
+# (file, regex, lean name, lean type, output module)
+TABLE = [
+    ("lib/src/eol.rs", r"const\s+PROBE_LIMIT\s*:\s*u64\s*=\s*([^;]+);", "eolProbeLimit", "Nat", "ConstsEol"),
+]
 
+# Rule texts that several grammars must share verbatim (one Lean model stands for all of them):
+# (rule names, files, Lean name, output module).  The normalised text is written to the module as
+# documentation; the translator fails if the files disagree or a rule is missing.
+SAME_RULES = [
+    (["string_escape", "string_content_char", "string_content", "string_literal",
+      "raw_string_content", "raw_string_literal"],
+     ["lib/src/revset.pest", "lib/src/fileset.pest", "cli/src/template.pest"],
+     "stringLiteralRules", "ConstsDsl"),
+]
+
+
+# --------------------------------------------------------------------------------------------------
+# Structural facts of the source that a model assumes or takes as a Boolean parameter
+# (C21 guard of get_head_locked; C14/C21 add-before-remove order and equal-name guards).
+# Each entry of CUSTOM is a function returning (file name in Generated/, text) or None (check only);
+# it raises PatternVanished when the source shape it is tied to has disappeared.
 class PatternVanished(Exception):
     pass
 
 
 def read(rel):
-    with open(os.path.join(REPO, rel), encoding="utf-8") as f:
-        return f.read()
+    try:
+        with open(os.path.join(REPO, rel), encoding="utf-8") as f:
+            return f.read()
+    except OSError as e:
+        raise PatternVanished(f"{rel}: cannot read ({e})")
 
 
 def fn_body(src, header_re, what):
@@ -92,41 +122,114 @@ def check_opheads():
     return None
 
 
-GENERATORS = [gen_table_guard, check_opheads]
 
+CUSTOM = [gen_table_guard, check_opheads]
+
+_OPS = {ast.LShift: lambda a, b: a << b, ast.RShift: lambda a, b: a >> b, ast.Mult: lambda a, b: a * b,
+        ast.Add: lambda a, b: a + b, ast.Sub: lambda a, b: a - b}
+
+def const_eval(expr):
+    e = re.sub(r"(?<=[0-9a-fA-F])_(?=[0-9a-fA-F])", "", expr.strip())
+    e = re.sub(r"\b((?:0x[0-9a-fA-F]+)|(?:[0-9]+))(?:u8|u16|u32|u64|usize|i32|i64|isize)\b", r"\1", e)
+    def ev(n):
+        if isinstance(n, ast.Expression):
+            return ev(n.body)
+        if isinstance(n, ast.Constant) and isinstance(n.value, int) and not isinstance(n.value, bool):
+            return n.value
+        if isinstance(n, ast.BinOp) and type(n.op) in _OPS:
+            return _OPS[type(n.op)](ev(n.left), ev(n.right))
+        raise ValueError(f"unsupported constant expression: {expr!r}")
+    return ev(ast.parse(e, mode="eval"))
+
+def pest_rule(src, name):
+    """text of pest rule `name` (up to the next rule / comment / blank line), whitespace-normalised"""
+    m = re.search(r"^" + re.escape(name) + r"\s*=.*?(?=^\w+\s*=|^//|^\s*$|\Z)", src, re.S | re.M)
+    return None if m is None else " ".join(m.group(0).split())
 
 def write_if_changed(path, text):
     try:
-        with open(path, encoding="utf-8") as f:
-            if f.read() == text:
-                return False
+        if open(path).read() == text:
+            return False
     except FileNotFoundError:
         pass
     os.makedirs(os.path.dirname(path), exist_ok=True)
-    with open(path, "w", encoding="utf-8") as f:
+    with open(path, "w") as f:
         f.write(text)
     return True
 
-
 def main():
-    failed = []
-    for g in GENERATORS:
+    errors, modules = [], {}
+    for file, rx, name, ty, module in TABLE:
+        path = os.path.join(REPO, file)
         try:
-            out = g()
+            src = open(path).read()
+        except OSError as e:
+            errors.append(f"{file}: cannot read ({e})")
+            continue
+        ms = re.findall(rx, src)
+        if len(ms) != 1:
+            errors.append(f"{file}: pattern for {name} matched {len(ms)} times (expected 1): {rx}")
+            continue
+        try:
+            val = const_eval(ms[0])
+        except (ValueError, SyntaxError) as e:
+            errors.append(f"{file}: {name}: {e}")
+            continue
+        if ty == "Nat" and val < 0:
+            errors.append(f"{file}: {name}: negative value {val} for Nat")
+            continue
+        modules.setdefault(module, []).append((file, ms[0].strip(), name, ty, val))
+    texts = {}
+    for rules, files, name, module in SAME_RULES:
+        per_file = {}
+        for file in files:
+            try:
+                src = open(os.path.join(REPO, file)).read()
+            except OSError as e:
+                errors.append(f"{file}: cannot read ({e})")
+                continue
+            got = [pest_rule(src, r) for r in rules]
+            if None in got:
+                errors.append(f"{file}: rule(s) missing: {[r for r, g in zip(rules, got) if g is None]}")
+                continue
+            per_file[file] = "\n".join(got)
+        if len(per_file) == len(files):
+            if len(set(per_file.values())) != 1:
+                errors.append(f"rules {rules} differ between {files}: the shared model {name} no longer stands for all of them")
+            else:
+                texts.setdefault(module, []).append((files, name, per_file[files[0]]))
+    custom_out = []
+    for g in CUSTOM:
+        try:
+            r = g()
         except PatternVanished as e:
-            failed.append(f"{g.__name__}: {e}")
+            errors.append(f"{g.__name__}: source pattern vanished — {e}")
             continue
-        except FileNotFoundError as e:
-            failed.append(f"{g.__name__}: source file missing: {e.filename}")
-            continue
-        if out:
-            name, text = out
-            changed = write_if_changed(os.path.join(ROOT, name), text)
-            print(f"translate: {name} {'updated' if changed else 'unchanged'}")
-    for f in failed:
-        print("translate: PATTERN VANISHED — " + f)
-    sys.exit(1 if failed else 0)
-
+        if r:
+            custom_out.append(r)
+    if errors:
+        for e in errors:
+            print("translate: ERROR " + e)
+        return 1
+    for name, text in custom_out:
+        changed = write_if_changed(os.path.join(ROOT, name), text)
+        print(f"translate: {name} {'updated' if changed else 'unchanged'} (structural)")
+    for module, entries in sorted(modules.items()):
+        lines = ["-- GENERATED by tools/translate.py from the jj source — do not edit", "namespace JjModel.Generated", ""]
+        for file, expr, name, ty, val in entries:
+            lines += [f"/-- `{file}`: `{expr}` -/", f"def {name} : {ty} := {val}", ""]
+        lines += ["end JjModel.Generated", ""]
+        changed = write_if_changed(os.path.join(ROOT, module + ".lean"), "\n".join(lines))
+        print(f"translate: {module}.lean {'updated' if changed else 'unchanged'} ({len(entries)} constant(s))")
+    for module, entries in sorted(texts.items()):
+        lines = ["-- GENERATED by tools/translate.py from the jj source — do not edit", "namespace JjModel.Generated", ""]
+        for files, name, text in entries:
+            lit = text.replace("\\", "\\\\").replace('"', '\\"').replace("\n", "\\n")
+            lines += [f"/-- rule text shared verbatim by {', '.join('`' + f + '`' for f in files)} -/", f'def {name} : String := "{lit}"', ""]
+        lines += ["end JjModel.Generated", ""]
+        changed = write_if_changed(os.path.join(ROOT, module + ".lean"), "\n".join(lines))
+        print(f"translate: {module}.lean {'updated' if changed else 'unchanged'} ({len(entries)} shared rule group(s))")
+    return 0
 
 if __name__ == "__main__":
-    main()
+    sys.exit(main())
